@@ -92,6 +92,34 @@ def run_harness(binpath, args, cwd=None, env=None, timeout=1800, stdin=None):
     return p.stdout
 
 
+def run_harness_split(binpath, sub, tablesf, cases, casef, obsf, nparts=4, timeout=3000):
+    """Run `vh <sub> tables cases obs` over the cases in nparts processes (contiguous slices, run concurrently) and concatenate
+    the observations in case order.  Separate processes keep one slice's abandoned (hung) resolutions from starving the others."""
+    import concurrent.futures as cf
+    n = len(cases)
+    bounds = [(k * n) // nparts for k in range(nparts + 1)]
+    parts = [(bounds[k], bounds[k + 1]) for k in range(nparts) if bounds[k + 1] > bounds[k]] or [(0, 0)]
+    write_ndjson(casef, cases)
+
+    def one(k, lo, hi):
+        cf_, of_ = "%s.part%d" % (casef, k), "%s.part%d" % (obsf, k)
+        write_ndjson(cf_, cases[lo:hi])
+        run_harness(binpath, [sub, tablesf, cf_, of_], timeout=timeout)
+        return of_
+    with cf.ThreadPoolExecutor(max_workers=len(parts)) as ex:
+        outs = [f.result() for f in [ex.submit(one, k, lo, hi) for k, (lo, hi) in enumerate(parts)]]
+    with open(obsf, "w") as w:
+        for of_ in outs:
+            with open(of_) as r:
+                shutil.copyfileobj(r, w)
+            os.remove(of_)
+    for k in range(len(parts)):
+        try:
+            os.remove("%s.part%d" % (casef, k))
+        except OSError:
+            pass
+
+
 import threading
 _spec_lock = threading.Lock()
 
